@@ -142,7 +142,7 @@ func runCheck(repo, verif, prop, tier string, update bool) int {
 	}
 	wg.Wait()
 	genS := time.Since(start).Seconds() - loadS
-	timeout := 20
+	timeout := 30
 	thorough := tier == "thorough"
 	if thorough {
 		timeout = 120
@@ -177,6 +177,35 @@ func runCheck(repo, verif, prop, tier string, update bool) int {
 		}(r)
 	}
 	wg.Wait()
+	// 2b. an obligation of a claimed function that no solver decided (timeout /
+	// unknown: typically machine load) is retried with few queries in parallel
+	// and a much longer limit before it may be reported; a `sat` answer is final.
+	{
+		rsolver, err := newSolver(timeout*10, false, 6)
+		if err == nil {
+			rsolver.firstS = timeout * 2
+			for _, r := range reports {
+				if r.Status == "sat" || r.Status == "unsat" || r.fv.Err != "" || !claimed.funcs[r.Func] {
+					continue
+				}
+				if _, skipped := claimed.skips[r.Name]; skipped {
+					continue
+				}
+				wg.Add(1)
+				go func(r *OblReport) {
+					defer wg.Done()
+					res := rsolver.solve(r.fv, r.o, eng)
+					mu.Lock()
+					res.Retries += 10
+					r.res = res
+					r.Status, r.Solver, r.Ms = res.Status, res.Solver, res.Ms
+					mu.Unlock()
+				}(r)
+			}
+			wg.Wait()
+			rsolver.close()
+		}
+	}
 	// 3. classify
 	exit := 0
 	var violations, known []string
@@ -263,6 +292,12 @@ func runCheck(repo, verif, prop, tier string, update bool) int {
 		}
 		if !r.Claimed {
 			undecided = append(undecided, map[string]string{"name": r.Name, "reason": r.Status})
+			continue
+		}
+		if r.o.Cover && r.Status != "unsat" {
+			// vacuity guard undecided (no solver produced a model in time): this says
+			// nothing about the property; recorded, not reported as a violation
+			undecided = append(undecided, map[string]string{"name": r.Name, "reason": "cover query undecided: " + r.Status})
 			continue
 		}
 		nclaimed++
